@@ -867,13 +867,18 @@ def OP_CALL(tape: Tape, stack: Stack, cache: dict) -> None:
     tape.callstack_count += 1
     subtape = tape.definitions[def_handle]
     init_pointer = subtape.pointer
+    init_flags = subtape.flags
     subtape.callstack_count = tape.callstack_count
+    # the definition runs with, and acts on, the flags of its caller (not
+    # those of the tape that defined it)
+    subtape.flags = tape.flags
 
     subtape.pointer = 0
     try:
         run_tape(subtape, stack, cache, additional_flags={**tape.flags})
     finally:
         subtape.pointer = init_pointer
+        subtape.flags = init_flags
     stack.returned = False
 
 def OP_IF(tape: Tape, stack: Stack, cache: dict) -> None:
